@@ -136,3 +136,11 @@ prop("C08",
          H("txfile.VerifWriterSticky", "real writer: after the first failure nothing reaches the target until the reset sync; waiters released with the error; writer usable again", "3 messages (thorough: 4 + 2 preemptions)",
            thorough={"params": {"msgs": 4, "preempt": 2}}),
      ])
+
+# ------------------------------------------------------------------ C14
+prop("C14",
+     bounds="file created with a 128-page limit (page size 1024), 2 written pages, 0 / 68 / 100 further allocated pages, optionally 3 pages freed (end of file and middle); "
+            "reopened with FlagUpdMaxSize and a limit of 64 / 96 / 160 pages or unbounded, with and without Prealloc; then 2 transactions (10 overwrites, 3 allocations), plain reopen",
+     outside="other size combinations and longer histories after the resize; the leaks O1/O2 of DESIGN.md section 4 (pages owned by nobody in the shrink transition) are not part of the statement",
+     harnesses=[H("txfile.VerifResize", "data and root intact, no blocking, exact avail delta when growing, extent bound after shrinking, plain reopen reports the new limit", "3 fills x freesome x 4 new limits x prealloc",
+                  thorough={"params": {"rounds": 3, "metaarea": 8}})])
